@@ -17,7 +17,7 @@ pub static EXPECTED: Scenario = Scenario {
     id: "C03",
     name: "c03-address-book",
     run,
-    quick_runs: 6000,
+    quick_runs: 15_000,
     thorough_runs: 200_000,
     rule: "one run = a caller Network and an address book of 6 addresses hosting the expected peer E, another honest identity O, an impostor replaying E's certificate with a foreign key (acknowledgement implemented), a party with its own key presenting E's certificate behind its own in the chain, the caller's own address, and nobody; 2-7 concurrent connect / connect_with_peer_id calls at PRNG instants under PRNG handshake loss, duplication and corruption; distinct = distinct order signature (per call: target kind, expectation, result; events on caller, E and O); non-trivial = every run with a mismatching dial or a fault",
     real: super::REAL_NET,
